@@ -43,6 +43,14 @@ pub struct MapCase {
     pub repeat_mask: bool,
 }
 
+fn map_any(path: &str, t: &Table, am: bool, rm: bool, vcf: bool) -> ChildResult {
+    if t.k <= 31 {
+        real::map_child::<u64>(path, t, am, rm, 1, vcf)
+    } else {
+        real::map_child::<u128>(path, t, am, rm, 1, vcf)
+    }
+}
+
 fn dicts_of(t: &Table) -> Vec<BTreeMap<String, u8>> {
     (0..t.names.len()).map(|i| t.rows.iter().filter(|(_, r)| r[i] != b'-').map(|(a, r)| (a.clone(), r[i])).collect()).collect()
 }
@@ -93,7 +101,7 @@ pub fn check_aln(c: &MapCase) -> Result<Option<Vec<Vec<u8>>>, String> {
     let (path, _) = ref_file(c);
     let (want, any) = model_map(&c.reference, &dicts_of(&c.table), c.table.k, c.table.rc, c.ambig_mask, c.repeat_mask);
     let ref_has_kmers = c.reference.iter().any(|s| !windows(s, c.table.k).is_empty());
-    let r = real::map_child::<u64>(&path, &c.table, c.ambig_mask, c.repeat_mask, 1, false);
+    let r = map_any(&path, &c.table, c.ambig_mask, c.repeat_mask, false);
     match r {
         ChildResult::Ok(out) => {
             let (names, seqs) = real::parse_fasta(&out);
@@ -128,7 +136,7 @@ pub fn check_aln(c: &MapCase) -> Result<Option<Vec<Vec<u8>>>, String> {
 /// C05 verdict for one case, given the real alignment
 pub fn check_vcf(c: &MapCase, real_aln: &[Vec<u8>]) -> Result<(), String> {
     let (path, rf) = ref_file(c);
-    let r = real::map_child::<u64>(&path, &c.table, c.ambig_mask, c.repeat_mask, 1, true);
+    let r = map_any(&path, &c.table, c.ambig_mask, c.repeat_mask, true);
     match r {
         ChildResult::Ok(out) => {
             let alns: Option<Vec<Vec<Vec<u8>>>> = real_aln.iter().map(|s| split_contigs(s, &c.reference)).collect();
@@ -187,7 +195,7 @@ impl Driver<'_> {
                     self.rep.corner("alignment_disagrees_with_model(C04)");
                     // still relate VCF to the real alignment when one was produced
                     let (path, _) = ref_file(c);
-                    if let ChildResult::Ok(out) = real::map_child::<u64>(&path, &c.table, c.ambig_mask, c.repeat_mask, 1, false) {
+                    if let ChildResult::Ok(out) = map_any(&path, &c.table, c.ambig_mask, c.repeat_mask, false) {
                         let (_, seqs) = real::parse_fasta(&out);
                         if let Err(e2) = check_vcf(c, &seqs) {
                             if !e2.starts_with("MACHINERY") {
@@ -218,7 +226,7 @@ pub fn replay(id: &str, v: &Value) -> Result<Option<String>, String> {
                 Ok(Some(e))
             } else {
                 let (path, _) = ref_file(&c);
-                if let ChildResult::Ok(out) = real::map_child::<u64>(&path, &c.table, c.ambig_mask, c.repeat_mask, 1, false) {
+                if let ChildResult::Ok(out) = map_any(&path, &c.table, c.ambig_mask, c.repeat_mask, false) {
                     let (_, seqs) = real::parse_fasta(&out);
                     Ok(check_vcf(&c, &seqs).err())
                 } else {
@@ -290,9 +298,11 @@ pub fn run(ctx: &Ctx, rep: &mut Report, id: &str) {
         for a in lens {
             layouts.push(vec![a]);
         }
-        for a in lens {
-            for b in lens {
-                layouts.push(vec![a, b]);
+        // quick tier at k=7: pairs over the lengths around k only (k=5 and thorough: all 100 ordered pairs)
+        let pair_lens: Vec<usize> = if k == 7 && !thorough { vec![h, k - 1, k, k + 1] } else { lens.to_vec() };
+        for a in &pair_lens {
+            for b in &pair_lens {
+                layouts.push(vec![*a, *b]);
             }
         }
         for (a, b, c) in [(k + 1, h, k + 1), (h, k + 2, 1), (k, k - 1, k), (2 * k, 1, k + 2), (k + 2, k, 2 * k - 1), (1, h, k + 1), (k + 1, 1, h), (k - 1, k + 1, k - 1)] {
@@ -398,7 +408,9 @@ pub fn run(ctx: &Ctx, rep: &mut Report, id: &str) {
                 if batch.len() == 8 {
                     idx += 1;
                     nbatch += 1;
-                    if ctx.mine(idx) {
+                    // quick tier: the longest length is covered by every fourth batch
+                    let skip = !thorough && len == maxlen && len > k + 1 && nbatch % 4 != 0;
+                    if ctx.mine(idx) && !skip {
                         flush(&mut batch, &mut d, nbatch);
                     } else {
                         batch.clear();
@@ -415,12 +427,12 @@ pub fn run(ctx: &Ctx, rep: &mut Report, id: &str) {
                 d.rep.capped = true;
                 break 'b1;
             }
-            d.rep.completed.push(format!("level B self-map of every reference of length {len} (8 per run, as contigs)"));
+            d.rep.completed.push(format!("level B self-map of {} reference of length {len} (8 per run, as contigs)", if !thorough && len == maxlen && len > k + 1 { "every fourth batch of" } else { "every" }));
         }
     }
     if !d.rep.capped {
         // substitutions, deletions, reverse complement, swapped contigs, repeats
-        for k in [5usize, 7] {
+        for k in if thorough { vec![5usize, 7, 33] } else { vec![5usize, 7] } {
             let g1 = repeat_free(3 * k + 1, k, 0, ctx.seed + 51);
             let g2 = repeat_free(2 * k, k, 0, ctx.seed + 52);
             let short: Vec<u8> = g2[..k - 2].to_vec();
@@ -477,27 +489,37 @@ pub fn run(ctx: &Ctx, rep: &mut Report, id: &str) {
             d.rep.completed.push(format!("level B structured references k={k}"));
         }
     }
-    // ---------------- CLI glue
+    // ---------------- CLI glue: every flag combination at both integer widths
     if !d.rep.capped {
-        idx += 1;
-        if ctx.mine(idx) {
-            let k = 9usize;
-            let g1 = repeat_free(40, k, 0, ctx.seed + 60);
-            let g2 = repeat_free(25, k, 0, ctx.seed + 61);
+        for k in [9usize, 31, 33, 63] {
+            idx += 1;
+            if !ctx.mine(idx) {
+                continue;
+            }
+            let g1 = repeat_free(4 * k + 3, k, 0, ctx.seed + 60);
+            let g2 = repeat_free(2 * k + 5, k, 0, ctx.seed + 61);
+            // contig 1 carries an exact repeat of its first k+2 letters; contig 2 is lower case
+            let c1: Vec<u8> = [&g1[..], &g1[..k + 2]].concat();
+            let reference = vec![c1.clone(), g2.to_ascii_lowercase()];
             let dir = scratch::path("c04cli");
+            let _ = std::fs::remove_dir_all(&dir);
             let _ = std::fs::create_dir_all(&dir);
-            std::fs::write(format!("{dir}/ref.fa"), scratch::fasta_named(&[("chrA first".into(), g1.clone()), ("chrB".into(), g2.to_ascii_lowercase())])).unwrap();
+            std::fs::write(format!("{dir}/ref.fa"), scratch::fasta_named(&[("chrA first".into(), reference[0].clone()), ("chrB".into(), reference[1].clone())])).unwrap();
+            // sample a: a SNP, plus a diverged duplicate of a window (ambiguity code); sample b: reverse complement of contig 1
             let mut s1 = g1.clone();
-            s1[20] = comp(s1[20]);
-            std::fs::write(format!("{dir}/a.fa"), scratch::fasta(&[s1.clone(), g2.clone()])).unwrap();
-            std::fs::write(format!("{dir}/b.fa"), scratch::fasta(&[rc_str(&g1)])).unwrap();
+            s1[2 * k] = comp(s1[2 * k]);
+            let mut dup = g1[k..2 * k + 1].to_vec();
+            dup[(k - 1) / 2 + 1] = comp(dup[(k - 1) / 2 + 1]);
+            let sa = vec![s1, g2.clone(), dup];
+            let sb = vec![rc_str(&g1)];
+            std::fs::write(format!("{dir}/a.fa"), scratch::fasta(&sa)).unwrap();
+            std::fs::write(format!("{dir}/b.fa"), scratch::fasta(&sb)).unwrap();
             let ks = k.to_string();
             let b = cli::run(&["build", "-k", &ks, "-o", "x", "a.fa", "b.fa"], &dir, None);
-            let reference = vec![g1.clone(), g2.to_ascii_lowercase()];
             let names = vec!["a".to_string(), "b".to_string()];
-            let t = Table::from_samples(k, true, &names, &[vec![s1, g2.clone()], vec![rc_str(&g1)]]);
+            let t = Table::from_samples(k, true, &names, &[sa, sb]);
             let rf = RefSeq { path: format!("{dir}/ref.fa"), names: vec!["chrA".into(), "chrB".into()], seqs: reference.clone() };
-            for (am, rm) in [(false, false), (true, true)] {
+            for (am, rm) in [(false, false), (true, false), (false, true), (true, true)] {
                 d.rep.evaluations += 1;
                 d.rep.nontrivial += 1;
                 d.rep.corner("cli_map");
@@ -513,8 +535,11 @@ pub fn run(ctx: &Ctx, rep: &mut Report, id: &str) {
                 let (nm, seqs) = real::parse_fasta(&o.stdout);
                 let want_cat: Vec<Vec<u8>> = want.iter().map(|a| a.concat()).collect();
                 let aln_ok = b.code == 0 && o.code == 0 && nm == names && seqs == want_cat;
+                if am != rm && want_cat == model_map(&reference, &dicts_of(&t), k, true, rm, am).0.iter().map(|a| a.concat()).collect::<Vec<_>>() {
+                    d.rep.machinery("C04 CLI family: the two mask flags are not distinguishable on this input".into());
+                }
                 if !want_vcf && !aln_ok {
-                    d.rep.violate(format!("cli map am={am} rm={rm}"), format!("ska map (exit {}) differs from the model", o.code), json!({"cli": true, "am": am, "rm": rm}));
+                    d.rep.violate(format!("cli map k={k} am={am} rm={rm}"), format!("ska map at k={k} --ambig-mask={am} --repeat-mask={rm} (exit {}) differs from the model", o.code), json!({"cli": true, "k": k, "am": am, "rm": rm}));
                 }
                 if want_vcf && o.code == 0 {
                     let mut va = args.clone();
@@ -526,7 +551,7 @@ pub fn run(ctx: &Ctx, rep: &mut Report, id: &str) {
                         _ => false,
                     };
                     if !ok {
-                        d.rep.violate(format!("cli map vcf am={am} rm={rm}"), "ska map -f vcf does not carry the information of ska map -f aln".into(), json!({"cli": true, "vcf": true, "am": am, "rm": rm}));
+                        d.rep.violate(format!("cli map vcf k={k} am={am} rm={rm}"), "ska map -f vcf does not carry the information of ska map -f aln".into(), json!({"cli": true, "vcf": true, "k": k, "am": am, "rm": rm}));
                     }
                 }
             }
